@@ -384,6 +384,158 @@ theorem skeleton_independent_dumper (printable : Nat → Bool) (hp : SurrogatesN
     this `decide` fails. -/
 theorem sites_classified : sites.all Site.safe = true := by decide +kernel
 
+/-! ## 4. function names (converters, stubs, linked functions): arbitrary text -> the name in the source -/
+
+/-- **Whatever text is given as a function name, the name written into the source is an identifier
+    and not a keyword** — for EVERY string (empty, only punctuation, a keyword, a keyword hidden
+    behind characters that are dropped: `"class!"`, `"de f"`, `"None\x00"` …).  `closureName` is
+    `sanitize(name) or "_"`, the expression every caller uses. -/
+theorem closure_name_is_identifier (idCont : Nat → Bool) (hu : idCont 95 = true) (name : Str) :
+    IdentShaped idCont (closureName idCont pyKeywords name) ∧ closureName idCont pyKeywords name ∉ pyKeywords := by
+  cases name with
+  | nil =>
+    have : closureName idCont pyKeywords [] = [95] := by simp [closureName, sanitize]
+    rw [this]
+    exact ⟨⟨Or.inr rfl, by simp⟩, by decide⟩
+  | cons c cs =>
+    have h := sanitize_is_identifier idCont hu (c :: cs) (by simp)
+    have hne := identShaped_ne_nil h.1
+    have : closureName idCont pyKeywords (c :: cs) = sanitize idCont pyKeywords (c :: cs) := by
+      unfold closureName
+      split
+      · rename_i heq; exact absurd heq hne
+      · rfl
+    rw [this]
+    exact h
+
+/-- **Legal names are left as they are**: a string that already is an identifier (ASCII letter or
+    `_`, then identifier characters) and not a keyword is a fixed point of the sanitizer — the
+    sanitizer is the identity exactly where nothing has to be repaired, so it cannot merge two
+    distinct legal names.  (`.` and `[` are not identifier characters.) -/
+theorem sanitize_keeps_identifiers (idCont : Nat → Bool) (h46 : idCont 46 = false) (h91 : idCont 91 = false)
+    (name : Str) (hid : IdentShaped idCont name) (hk : name ∉ pyKeywords) :
+    sanitize idCont pyKeywords name = name ∧ closureName idCont pyKeywords name = name := by
+  cases name with
+  | nil => exact absurd hid (by simp [IdentShaped])
+  | cons c cs =>
+    obtain ⟨hhead, htail⟩ := hid
+    have h0 : (if isAsciiLetter c = true then c else 95) = c := by
+      rcases hhead with h | h
+      · simp [h]
+      · subst h; simp [isAsciiLetter]
+    have hmap : cs.map translateChar = cs := by
+      have : ∀ x ∈ cs, translateChar x = x := by
+        intro x hx
+        have hx' := htail x hx
+        unfold translateChar
+        split
+        · rename_i hor
+          rcases hor with h | h <;> subst h <;> simp_all
+        · rfl
+      calc cs.map translateChar = cs.map id := List.map_congr_left this
+        _ = cs := List.map_id cs
+    have hfil : cs.filter idCont = cs := List.filter_eq_self.mpr htail
+    have hnk : pyKeywords.contains (c :: cs) = false := by
+      simpa using hk
+    have hs : sanitize idCont pyKeywords (c :: cs) = c :: cs := by
+      simp only [sanitize, h0, hmap, hfil, hnk]
+      simp
+    refine ⟨hs, ?_⟩
+    unfold closureName
+    rw [hs]
+
+/-- the sanitizer is idempotent: its image consists of names it keeps -/
+theorem sanitize_idempotent (idCont : Nat → Bool) (hu : idCont 95 = true) (h46 : idCont 46 = false)
+    (h91 : idCont 91 = false) (name : Str) :
+    closureName idCont pyKeywords (closureName idCont pyKeywords name) = closureName idCont pyKeywords name := by
+  have h := closure_name_is_identifier idCont hu name
+  exact (sanitize_keeps_identifiers idCont h46 h91 _ h.1 h.2).2
+
+/-- **The head of a generated function definition does not depend on the function's name.**
+    For every text `fn` given as the name and every following text, `def <closureName fn>(`
+    is read as exactly three tokens — the keyword `def`, ONE name token that is not a keyword,
+    and `(` — and lexing continues at the parameter list: a function name cannot add, remove
+    or re-classify a token (`hsub`: an identifier character is an ASCII letter, a digit, `_` or
+    non-ASCII — validated against `str.isidentifier` on every run). -/
+theorem def_header_tokens (idCont : Nat → Bool) (hu : idCont 95 = true)
+    (hsub : ∀ c, idCont c = true → isIdCont c = true) (fn rest : Str) (ts : List Tok) (f : Nat)
+    (h : lexToks f rest = some ts) :
+    lexToks (f + 4) (defHeader (closureName idCont pyKeywords fn) ++ rest)
+        = some (Tok.name [100, 101, 102] :: Tok.name (closureName idCont pyKeywords fn) :: Tok.op 40 :: ts)
+      ∧ (Tok.name (closureName idCont pyKeywords fn)).isKeyword pyKeywords = false := by
+  obtain ⟨hid, hnk⟩ := closure_name_is_identifier idCont hu fn
+  generalize closureName idCont pyKeywords fn = cn at hid hnk
+  have hcn : identLike cn := by
+    cases cn with
+    | nil => exact absurd hid (by simp [IdentShaped])
+    | cons a t =>
+      refine ⟨?_, fun c hc => hsub c (hid.2 c hc)⟩
+      rcases hid.1 with h1 | h1
+      · simp [isIdStart, h1]
+      · subst h1; decide
+  refine ⟨?_, by simpa [Tok.isKeyword] using hnk⟩
+  have h1 : lexToks (f + 1) (40 :: rest) = some (Tok.op 40 :: ts) := lex_op f 40 (by decide) rest ts h
+  have h2 : lexToks (f + 2) (cn ++ 40 :: rest) = some (Tok.name cn :: Tok.op 40 :: ts) :=
+    lex_word (f + 1) cn (40 :: rest) _ hcn (by intro x hx; simp at hx; subst hx; decide) h1
+  have h3 : lexToks (f + 3) (32 :: (cn ++ 40 :: rest)) = some (Tok.name cn :: Tok.op 40 :: ts) := by
+    rw [lex_sp]; exact h2
+  have h4 := lex_word (f + 3) [100, 101, 102] (32 :: (cn ++ 40 :: rest)) _
+    (by refine ⟨by decide, ?_⟩; decide) (by intro x hx; simp at hx; subst hx; decide) h3
+  have hshape : defHeader cn ++ rest = [100, 101, 102] ++ 32 :: (cn ++ 40 :: rest) := by
+    simp [defHeader]
+  rw [hshape]
+  exact h4
+
+/-- the same for a call of a registered function, `<name>(`: one name token that is not a keyword -/
+theorem call_head_tokens (idCont : Nat → Bool) (hu : idCont 95 = true)
+    (hsub : ∀ c, idCont c = true → isIdCont c = true) (fn rest : Str) (ts : List Tok) (f : Nat)
+    (h : lexToks f rest = some ts) :
+    lexToks (f + 2) (callHead (closureName idCont pyKeywords fn) ++ rest)
+        = some (Tok.name (closureName idCont pyKeywords fn) :: Tok.op 40 :: ts)
+      ∧ (Tok.name (closureName idCont pyKeywords fn)).isKeyword pyKeywords = false := by
+  obtain ⟨hid, hnk⟩ := closure_name_is_identifier idCont hu fn
+  generalize closureName idCont pyKeywords fn = cn at hid hnk
+  have hcn : identLike cn := by
+    cases cn with
+    | nil => exact absurd hid (by simp [IdentShaped])
+    | cons a t =>
+      refine ⟨?_, fun c hc => hsub c (hid.2 c hc)⟩
+      rcases hid.1 with h1 | h1
+      · simp [isIdStart, h1]
+      · subst h1; decide
+  refine ⟨?_, by simpa [Tok.isKeyword] using hnk⟩
+  have h1 : lexToks (f + 1) (40 :: rest) = some (Tok.op 40 :: ts) := lex_op f 40 (by decide) rest ts h
+  have h2 := lex_word (f + 1) cn (40 :: rest) _ hcn (by intro x hx; simp at hx; subst hx; decide) h1
+  have hshape : callHead cn ++ rest = cn ++ 40 :: rest := by simp [callHead]
+  rw [hshape]
+  exact h2
+
+/-- **Every name the mangling hands out for raw text is an identifier and not a keyword**:
+    `register_mangled(func.__name__, func)` returns `sanitize(..) or "_"` or that with `_<number>`
+    appended, whatever the namespace already contains. -/
+theorem mangled_name_is_identifier (idCont : Nat → Bool) (hu : idCont 95 = true)
+    (hd : ∀ c, (48 ≤ c && c ≤ 57) = true → idCont c = true)
+    (builtins : List Str) (ns : Namespace) (raw : Str) (obj fuel : Nat) (name : Str) (ns' : Namespace)
+    (h : registerMangledRaw idCont pyKeywords builtins ns raw obj fuel = some (name, ns')) :
+    IdentShaped idCont name ∧ name ∉ pyKeywords := by
+  obtain ⟨hid, hnk⟩ := closure_name_is_identifier idCont hu raw
+  unfold registerMangledRaw registerMangled at h
+  generalize closureName idCont pyKeywords raw = base at hid hnk h
+  split at h
+  · simp at h
+    rw [← h.1]
+    exact ⟨hid, hnk⟩
+  · obtain ⟨j, hj⟩ := mangleLoop_name builtins ns base obj fuel 1 name ns' h
+    subst hj
+    refine ⟨identShaped_append hid ?_, ?_⟩
+    · intro c hc
+      rcases List.mem_cons.mp hc with hc | hc
+      · subst hc; exact hu
+      · exact hd c (decimal_digits j c hc)
+    · intro hmem
+      have hno : ∀ k ∈ pyKeywords, (95 : Nat) ∉ k := by decide
+      exact hno _ hmem (by simp)
+
 /-! ## non-vacuity -/
 
 private def codes (s : String) : Str := s.toList.map Char.toNat
@@ -403,6 +555,17 @@ example : lexString (codes "'a\nb'") = none := by decide
 example : sanitize (fun c => isIdCont c) pyKeywords (codes "class") = codes "class_" := by decide
 example : sanitize (fun c => isIdCont c) pyKeywords (codes "y[CANARY: CANARY()]") = codes "y_CANARYCANARY" := by decide
 example : sanitize (fun c => isIdCont c) pyKeywords (codes "1x.y") = codes "_x_y" := by decide
+-- a keyword hidden behind characters that are dropped is still caught (checked on the RESULT, not on the input)
+example : closureName (fun c => isIdCont c) pyKeywords (codes "class!") = codes "class_" := by decide
+example : closureName (fun c => isIdCont c) pyKeywords (codes "de f") = codes "def_" := by decide
+example : closureName (fun c => isIdCont c) pyKeywords (codes "!?") = codes "_" := by decide
+example : closureName (fun c => isIdCont c) pyKeywords [] = codes "_" := by decide
+example : closureName (fun c => isIdCont c) pyKeywords (codes "is.instance") = codes "is_instance" := by decide
+-- `def class(` WOULD lex as three tokens too, but its name token is a keyword: the second conjunct is not vacuous
+example : tokenize (defHeader (codes "class") ++ codes "x):") = some [.name (codes "def"), .name (codes "class"), .op 40,
+    .name (codes "x"), .op 41, .op 58] ∧ (Tok.name (codes "class")).isKeyword pyKeywords = true := by decide
+example : (registerMangledRaw (fun c => isIdCont c) pyKeywords builtinNames { occupied := [codes "class_"] }
+    (codes "class!") 7 5).map (·.1) = some (codes "class__1") := by decide
 -- names
 example : (codes "f_") ∈ loaderSpec.families ∧ (codes "data") ∈ loaderSpec.fixed := by decide
 example : ¬ (NameSpec.separated builtinNames
